@@ -224,7 +224,7 @@ def _expand_partial_output(partial, sl_map, output_unroll_info):
     dtype = partial.yastn_dtype
     device = partial.device
 
-    expanded = Tensor(config=config, s=partial.struct.s, n=partial.struct.n)
+    expanded = Tensor(config=config, s=partial.struct.s, n=partial.struct.n, dtype=dtype, device=device)
 
     for i, block_ct in enumerate(partial.struct.t):
         # Slice block data in the native backend format (no numpy conversion)
